@@ -67,3 +67,332 @@ Definition cb_reads_in_window (cb : option nat -> nat -> list acc) : Prop :=
     | AUget _ i => match st with Some s => s | None => 0 end <= i /\ i <= e
     | _ => False
     end.
+
+(* =====================================================================================================
+   Extension (C10, kernels inside the trace model).
+   The rescanning callbacks of cmp.rs / norm.rs / reg.rs re-read the series through `uget` at indices that
+   depend on the data and on their cached state.  Each callback is written once more in the TRACED result
+   monad `tr X = (accesses performed, Ok x | Panic k)`: the text is the text of Model/Cmp.v, Model/Norm.v,
+   Model/Reg.v with `bind` replaced by `tbind` and `uget xs i` by `tget view xs i` (which logs `AUget view i`
+   before returning what `uget` returns).  Proofs/Kernels2.v proves the ERASURE law
+   `snd (cb_tr .. s a) = cb .. s a` for every one of them, so the traced text computes exactly the model
+   value (the model that the C03/C04/C05/C06 correspondence runs validate), and its first component is the
+   list of reads that computation performs.  Definitions only.                                           *)
+From Tevec Require Import Base.Num Model.Features Model.Cmp Model.Norm Model.Binary Model.Reg.
+
+Definition tr (X : Type) : Type := (list acc * res X)%type.
+Definition tret {X} (x : X) : tr X := ([], Ok x).
+Definition tpure {X} (r : res X) : tr X := ([], r).                 (* a step that touches no container *)
+Definition tbind {X Y} (m : tr X) (f : X -> tr Y) : tr Y :=
+  match snd m with
+  | Ok x => (fst m ++ fst (f x), snd (f x))
+  | Panic k => (fst m, Panic k)                                     (* unwinding: nothing more is accessed *)
+  end.
+Notation "'dot' x <- r ; k" := (tbind r (fun x => k)) (at level 200, x name, r at level 100, k at level 200).
+(* `view.uget(i)` *)
+Definition tget {T} (view : nat) (xs : list T) (i : nat) : tr T := ([AUget view i], uget xs i).
+(* `(self.uget(i), other.uget(i))` on the zipped series *)
+Definition tget2 {T} (zs : list T) (i : nat) : tr T := ([AUget 0 i; AUget 1 i], uget zs i).
+
+Definition start_or_0 (st : option nat) : nat := match st with Some s => s | None => 0 end.
+
+(* every access of a callback is an unchecked read at an index of lo ..= hi *)
+Definition reads_within (lo hi : nat) (t : list acc) : Prop :=
+  Forall (fun a => match a with AUget _ i => lo <= i /\ i <= hi | _ => False end) t.
+
+(* ---- cmp.rs: ts_vmin / ts_vmax / ts_vargmin / ts_vargmax ------------------------------------------ *)
+Section CmpTr.
+  Context {A : Type} `{NA : Num A} {T : Type} `{DT : IsNone T A}.
+  Variable scmp : option A -> option A -> comparison.
+
+  Fixpoint rescan_tr (xs : list T) (i cnt : nat) (m : option A) (mi : option nat)
+    : tr (option A * option nat) :=
+    match cnt with
+    | 0 => tret (m, mi)
+    | S c => dot v <- tget 0 xs i;
+             let v_ := to_opt v in
+             if takes (scmp v_ m) then rescan_tr xs (S i) c v_ (Some i) else rescan_tr xs (S i) c m mi
+    end.
+
+  Definition ext_step_tr (xs : list T) (s : @ext A) (start : option nat) (e : nat) (v : T) : tr (@ext A) :=
+    let v := to_opt v in
+    let s1 := match v with
+              | Some _ =>
+                  match x_idx s with
+                  | None => {| x_val := v; x_idx := Some e; x_n := S (x_n s) |}
+                  | Some _ => {| x_val := x_val s; x_idx := x_idx s; x_n := S (x_n s) |}
+                  end
+              | None => s
+              end in
+    if opt_lt (x_idx s1) start then
+      match start with
+      | None => tpure (Panic UnwrapNone)
+      | Some st =>
+          dot v0 <- tget 0 xs st;
+          dot r <- rescan_tr xs st (S e - st) (to_opt v0) (x_idx s1);
+          tret {| x_val := fst r; x_idx := snd r; x_n := x_n s1 |}
+      end
+    else if takes (scmp v (x_val s1)) then tret {| x_val := v; x_idx := Some e; x_n := x_n s1 |}
+    else tret s1.
+
+  Definition ext_post_tr (xs : list T) (s : @ext A) (start : option nat) : tr (@ext A) :=
+    match start with
+    | None => tret s
+    | Some st =>
+        dot v0 <- tget 0 xs st;
+        if not_none v0 then
+          dot n' <- tpure (usub (x_n s) 1); tret {| x_val := x_val s; x_idx := x_idx s; x_n := n' |}
+        else tret s
+    end.
+
+  Definition vext_cb_tr (mp : nat) (xs : list T) (s : @ext A) (a : option nat * nat * T)
+    : tr (@ext A * option A) :=
+    let '(start, e, v) := a in
+    dot s1 <- ext_step_tr xs s start e v;
+    let out := if mp <=? x_n s1 then x_val s1 else None in
+    dot s2 <- ext_post_tr xs s1 start;
+    tret (s2, out).
+
+  Definition varg_cb_tr (mp : nat) (xs : list T) (s : @ext A) (a : option nat * nat * T)
+    : tr (@ext A * option nat) :=
+    let '(start, e, v) := a in
+    dot s1 <- ext_step_tr xs s start e v;
+    dot out <- tpure (if (mp <=? x_n s1) && (match x_val s1 with Some _ => true | None => false end) then
+                        match x_idx s1 with
+                        | Some mi => do d <- usub mi (match start with Some st => st | None => 0 end);
+                                     Ok (Some (d + 1))
+                        | None => Ok None
+                        end
+                      else Ok None);
+    dot s2 <- ext_post_tr xs s1 start;
+    tret (s2, out).
+End CmpTr.
+
+(* ---- cmp.rs: ts_vrank --------------------------------------------------------------------------------- *)
+Section RankTr.
+  Context {A : Type} `{NA : Num A} {T : Type} `{DT : IsNone T A} {B : Type} `{NB : Num B}.
+  Local Open Scope num_scope.
+
+  Fixpoint rank_loop_tr (xs : list T) (x : A) (i cnt : nat) (rank : B) (nrep : nat) : tr (B * nat) :=
+    match cnt with
+    | 0 => tret (rank, nrep)
+    | S c => dot a <- tget 0 xs i;
+             if not_none a then
+               let a' := unwrap a in
+               if nltb a' x then rank_loop_tr xs x (S i) c (rank + none) nrep
+               else if neqb a' x then rank_loop_tr xs x (S i) c rank (S nrep)
+               else rank_loop_tr xs x (S i) c rank nrep
+             else rank_loop_tr xs x (S i) c rank nrep
+    end.
+
+  Definition vrank_cb_tr (mp w_m1 : nat) (pct rev : bool) (xs : list T) (n : nat)
+             (a : option nat * nat * T) : tr (nat * B) :=
+    let '(start, e, v) := a in
+    dot r <- (if not_none v then
+                let from := match start with Some st => st | None => 0 end in
+                dot rr <- rank_loop_tr xs (unwrap v) from (e - from) none 1;
+                tret (S n, fst rr, snd rr)
+              else tret (n, nnan, 1));
+    let '(n1, rank, nrep) := r in
+    let out := rank_out mp pct rev n1 rank nrep in
+    dot n2 <- (if w_m1 <=? e then
+                 match start with
+                 | None => tpure (Panic UnwrapNone)
+                 | Some st => dot v0 <- tget 0 xs st; if not_none v0 then tpure (usub n1 1) else tret n1
+                 end
+               else tret n1);
+    tret (n2, out).
+End RankTr.
+
+(* ---- norm.rs: ts_vminmaxnorm -------------------------------------------------------------------------- *)
+Section NormTr.
+  Context {A : Type} `{NA : Num A} {T : Type} `{DT : IsNone T A}.
+  Local Open Scope num_scope.
+  Variables tmin tmax : A.
+
+  Fixpoint scan_max_tr (xs : list T) (i cnt : nat) (mx : A) (mxi : nat) : tr (A * nat) :=
+    match cnt with
+    | 0 => tret (mx, mxi)
+    | S c => dot v <- tget 0 xs i;
+             if not_none v then
+               let x := unwrap v in
+               if nleb mx x then scan_max_tr xs (S i) c x i else scan_max_tr xs (S i) c mx mxi
+             else scan_max_tr xs (S i) c mx mxi
+    end.
+  Fixpoint scan_min_tr (xs : list T) (i cnt : nat) (mn : A) (mni : nat) : tr (A * nat) :=
+    match cnt with
+    | 0 => tret (mn, mni)
+    | S c => dot v <- tget 0 xs i;
+             if not_none v then
+               let x := unwrap v in
+               if nleb x mn then scan_min_tr xs (S i) c x i else scan_min_tr xs (S i) c mn mni
+             else scan_min_tr xs (S i) c mn mni
+    end.
+  Fixpoint scan_both_tr (xs : list T) (i cnt : nat) (mx : A) (mxi : nat) (mn : A) (mni : nat)
+    : tr (A * nat * (A * nat)) :=
+    match cnt with
+    | 0 => tret (mx, mxi, (mn, mni))
+    | S c => dot v <- tget 0 xs i;
+             if not_none v then
+               let x := unwrap v in
+               let '(mx', mxi') := if nleb mx x then (x, i) else (mx, mxi) in
+               let '(mn', mni') := if nleb x mn then (x, i) else (mn, mni) in
+               scan_both_tr xs (S i) c mx' mxi' mn' mni'
+             else scan_both_tr xs (S i) c mx mxi mn mni
+    end.
+
+  Definition mm_research_tr (xs : list T) (s : @mm A) (start : option nat) (e : nat) : tr (@mm A) :=
+    match start with
+    | None => tret s
+    | Some st =>
+        match mm_maxi s <? st, mm_mini s <? st with
+        | true, false =>
+            dot r <- scan_max_tr xs st (e - st) tmin (mm_maxi s);
+            tret {| mm_max := fst r; mm_maxi := snd r; mm_min := mm_min s; mm_mini := mm_mini s; mm_n := mm_n s |}
+        | false, true =>
+            dot r <- scan_min_tr xs st (e - st) tmax (mm_mini s);
+            tret {| mm_max := mm_max s; mm_maxi := mm_maxi s; mm_min := fst r; mm_mini := snd r; mm_n := mm_n s |}
+        | true, true =>
+            dot r <- scan_both_tr xs st (e - st) tmin (mm_maxi s) tmax (mm_mini s);
+            tret {| mm_max := fst (fst r); mm_maxi := snd (fst r);
+                    mm_min := fst (snd r); mm_mini := snd (snd r); mm_n := mm_n s |}
+        | false, false => tret s
+        end
+    end.
+
+  Definition mmnorm_cb_tr (mp : nat) (xs : list T) (s : @mm A) (a : option nat * nat * T) : tr (@mm A * A) :=
+    let '(start, e, v) := a in
+    dot s1 <- mm_research_tr xs s start e;
+    let '(s2, out) :=
+      if not_none v then
+        let x := unwrap v in
+        let n := S (mm_n s1) in
+        let '(mx, mxi) := if nleb (mm_max s1) x then (x, e) else (mm_max s1, mm_maxi s1) in
+        let '(mn, mni) := if nleb x (mm_min s1) then (x, e) else (mm_min s1, mm_mini s1) in
+        ({| mm_max := mx; mm_maxi := mxi; mm_min := mn; mm_mini := mni; mm_n := n |},
+         if (mp <=? n) && negb (neqb mx mn) then (x - mn) / (mx - mn) else nnan)
+      else (s1, nnan) in
+    dot s3 <- (match start with
+               | None => tret s2
+               | Some st =>
+                   dot v0 <- tget 0 xs st;
+                   if not_none v0 then
+                     dot n' <- tpure (usub (mm_n s2) 1);
+                     tret {| mm_max := mm_max s2; mm_maxi := mm_maxi s2; mm_min := mm_min s2;
+                             mm_mini := mm_mini s2; mm_n := n' |}
+                   else tret s2
+               end);
+    tret (s3, out).
+End NormTr.
+
+(* ---- reg.rs: ts_vregx_resid_{mean,std,skew} ----------------------------------------------------------
+   Model/Reg.v states this callback as a PURE function (`seg`, `nth_error`, truncated `n - 1`).  Here it is
+   the CHECKED text: the residual iterator reads `(self.uget(j), other.uget(j))` for j in
+   start.unwrap_or(0)..=end only when n >= min_periods, the removal reads both series at `start`, and
+   `n -= 1` is `usub`.  Proofs/Kernels2.v proves that under both drivers the checked text never panics and
+   returns what the pure model returns.                                                                 *)
+Section ResidTr.
+  Context {A : Type} `{NA : Num A} {T1 : Type} {D1 : IsNone T1 A} {T2 : Type} {D2 : IsNone T2 A}.
+  Local Open Scope num_scope.
+
+  Fixpoint read_pairs_tr (zs : list (T1 * T2)) (i cnt : nat) : tr (list (T1 * T2)) :=
+    match cnt with
+    | 0 => tret []
+    | S c => dot p <- tget2 zs i; dot r <- read_pairs_tr zs (S i) c; tret (p :: r)
+    end.
+
+  Definition resid_cb_tr (k : rstat) (mp : nat) (zs : list (T1 * T2)) (s : @csum A)
+             (a : option nat * nat * (T1 * T2)) : tr (@csum A * A) :=
+    let '(st, e, v) := a in
+    let s1 := csum_pre s v in
+    dot out <- (if mp <=? c_n s1 then
+                  let beta := regx_beta s1 in
+                  let alpha := (c_a s1 - beta * c_b s1) / nofnat (c_n s1) in
+                  let s0 := start_or_0 st in
+                  dot l <- read_pairs_tr zs s0 (S e - s0);
+                  tret (rstat_apply k (map (resid_of alpha beta) l))
+                else tret nnan);
+    dot s2 <- (match st with
+               | None => tret s1
+               | Some j =>
+                   dot p <- tget2 zs j;
+                   if both p then
+                     dot n' <- tpure (usub (c_n s1) 1);
+                     tret {| c_n := n'; c_a := c_a s1 - unwrap (fst p); c_a2 := c_a2 s1 - unwrap (fst p) * unwrap (fst p);
+                             c_b := c_b s1 - unwrap (snd p); c_b2 := c_b2 s1 - unwrap (snd p) * unwrap (snd p);
+                             c_ab := c_ab s1 - unwrap (fst p) * unwrap (snd p) |}
+                   else tret s1
+               end);
+    tret (s2, out).
+End ResidTr.
+
+(* ---- the access trace of a whole call of an index-form kernel ---------------------------------------
+   `drv e`: the driver's own reads at position e ([AUget 0 e] in the two-phase body of rolling_apply_idx,
+   [AUget 0 e; AUget 1 e] in rolling2_apply_idx, nothing in the iterator bodies, whose items come from the
+   iterator); then the callback's reads; then, in the two-phase bodies, the write of the output slot.  A
+   panic inside the callback unwinds: nothing is accessed afterwards.                                   *)
+Section KernelTrace.
+  Context {T St O : Type}.
+  Variable cbt : St -> option nat * nat * T -> tr (St * O).
+  Variable drv : nat -> list acc.
+  Variable wr : bool.
+
+  Fixpoint trace_calls (s : St) (calls : list (nat * (option nat * nat * T))) : list acc :=
+    match calls with
+    | [] => []
+    | (slot, a) :: rest =>
+        let r := cbt s a in
+        drv (snd (fst a)) ++ fst r ++
+        match snd r with
+        | Ok (s', _) => (if wr then [AUset slot] else []) ++ trace_calls s' rest
+        | Panic _ => []
+        end
+    end.
+End KernelTrace.
+
+Definition drv_reads (two : bool) (e : nat) : list acc := AUget 0 e :: (if two then [AUget 1 e] else []).
+
+(* body = true: two-phase index body; false: iterator body.  `two`: the kernel zips a second series. *)
+Definition kernel_trace {T St O} (body two : bool) (w : nat)
+           (cbt : St -> option nat * nat * T -> tr (St * O)) (s0 : St) (xs : list T) : list acc :=
+  if bad_window w xs then [] else
+  if body then trace_calls cbt (drv_reads two) true s0 (calls_to_idx w xs)
+  else trace_calls cbt (fun _ => []) false s0 (combine (seq 0 (length xs)) (args_iter_idx w xs)).
+
+(* the entry points, as traces *)
+Section EntryTraces.
+  Context {A : Type} `{NA : Num A} {T : Type} `{DT : IsNone T A}.
+  Definition trace_ts_vext (scmp : option A -> option A -> comparison) (body : bool) (w : nat)
+             (mp : option nat) (xs : list T) : list acc :=
+    let w' := cmp_window w xs in kernel_trace body false w' (vext_cb_tr scmp (cmp_mp mp w') xs) ext0 xs.
+  Definition trace_ts_varg (scmp : option A -> option A -> comparison) (body : bool) (w : nat)
+             (mp : option nat) (xs : list T) : list acc :=
+    let w' := cmp_window w xs in kernel_trace body false w' (varg_cb_tr scmp (cmp_mp mp w') xs) ext0 xs.
+  Definition trace_ts_vrank {B : Type} `{NB : Num B} (body : bool) (w : nat) (mp : option nat)
+             (pct rev : bool) (xs : list T) : list acc :=
+    let w' := cmp_window w xs in
+    kernel_trace body false w' (vrank_cb_tr (B := B) (cmp_mp mp w') (w' - 1) pct rev xs) 0 xs.
+  Definition trace_ts_vminmaxnorm (tmin tmax : A) (body : bool) (w : nat) (mp : option nat)
+             (xs : list T) : list acc :=
+    kernel_trace body false w (mmnorm_cb_tr tmin tmax (mp_eff mp w 0) xs) (mm0 tmin tmax) xs.
+End EntryTraces.
+
+Section EntryTraces2.
+  Context {A : Type} `{NA : Num A} {T1 : Type} {D1 : IsNone T1 A} {T2 : Type} {D2 : IsNone T2 A}.
+  (* rolling2_apply_idx_to asserts other.len() >= len before anything is read *)
+  Definition trace_ts_vregx_resid (k : rstat) (body : bool) (w : nat) (mp : option nat)
+             (xs : list T1) (ys : list T2) : list acc :=
+    let zs := combine xs ys in
+    if body && (length ys <? length xs) then []
+    else kernel_trace body true w (resid_cb_tr k (mp_eff mp w 0) zs) csum0 zs.
+End EntryTraces2.
+
+(* the residual statistics run with the CHECKED callback (both bodies; the index body asserts the lengths) *)
+Section ResidChecked.
+  Context {A : Type} `{NA : Num A} {T1 : Type} {D1 : IsNone T1 A} {T2 : Type} {D2 : IsNone T2 A}.
+  Definition ts_vregx_resid_chk (k : rstat) (body : bool) (w : nat) (mp : option nat)
+             (xs : list T1) (ys : list T2) : outcome A :=
+    let zs := combine xs ys in
+    if body && (length ys <? length xs) then Panicked AssertFail
+    else idx_run body w (fun s a => snd (resid_cb_tr k (mp_eff mp w 0) zs s a)) csum0 zs.
+End ResidChecked.
